@@ -79,6 +79,10 @@ func (obj *FuncInfo) FuncDocs() *FuncDoc {
 // LoadForm returns a list that when evaluated defines then function described
 // by this FuncInfo.
 func (obj *FuncInfo) LoadForm() Object {
+	if obj.Doc == nil {
+		// The placeholder for a function that is called but not defined.
+		PrintNotReadablePanic(NewScope(), 0, Symbol(obj.Name), "Can not make a load form for a function that is not defined.")
+	}
 	var form List
 	switch obj.Kind {
 	case MacroSymbol:
